@@ -1,6 +1,7 @@
 import Hertz.Driver.Core
 import Hertz.Model.Path
 import Hertz.Spec.Path
+import Hertz.Model.Uri
 namespace Hertz.Driver.C07
 open Hertz Hertz.Driver
 
@@ -21,6 +22,15 @@ def handle : Handler
     pure { out := [encHex m], spec := Spec.contained o,
            specNote := "clean path contained (leading /, no .., no inner empty/.)",
            tag := "cleanpath:" ++ sizeClass p.length ++ boolTok (p.head? == some 47) ++ boolTok (m.length < p.length) ++ boolTok (m.getLast? == some 47) }
+  | ["uripath", target], impl => do
+    -- the path the server routes on and serves files from, for a whole request target (`URI.Parse(nil, target)`):
+    -- origin form, absolute form, scheme-relative, drive-letter look-alikes `x:/…`, …
+    let t ← hx target
+    let o ← impl.head? >>= hx
+    let m := (Uri.parse [] t).path
+    pure { out := [encHex m], spec := Spec.contained o,
+           specNote := "the path of every request target is contained (leading /, no .., no inner empty/.)",
+           tag := "uripath:" ++ sizeClass t.length ++ boolTok (t.head? == some 47) ++ boolTok (t.contains 58) ++ boolTok (m == [47]) }
   | _, _ => none
 
 end Hertz.Driver.C07
